@@ -833,33 +833,43 @@ static json_t *ring_flags(struct ring *r)
 }
 
 /* ==================================================== map projections */
-/* one member -> [name, type, val] */
+/* one member -> [name, type, s, w] (uniform shape for TLC) */
+static json_t *mem4(const char *name, const char *t, const char *sv, json_t *w)
+{
+	return json_pack("[ssso]", name, t, sv, w ? w : wide(0));
+}
 static json_t *project_member(const char *name, json_t *v)
 {
 	json_t *t;
 	char *s;
 	switch (json_typeof(v)) {
 	case JSON_INTEGER:
-		return json_pack("[sso]", name, "int", wide((int64_t)json_integer_value(v)));
+		return mem4(name, "int", "", wide((int64_t)json_integer_value(v)));
 	case JSON_STRING:
 		if (is_plain_ascii(json_string_value(v)) && json_string_length(v) == strlen(json_string_value(v)) && json_string_length(v) < 200)
-			return json_pack("[sss]", name, "str", json_string_value(v));
+			return mem4(name, "str", json_string_value(v), NULL);
 		s = hexenc((const unsigned char *)json_string_value(v), json_string_length(v));
-		t = json_pack("[sss]", name, "strx", s);
+		t = mem4(name, "strx", s, NULL);
 		free(s);
 		return t;
-	case JSON_TRUE: return json_pack("[sss]", name, "bool", "true");
-	case JSON_FALSE: return json_pack("[sss]", name, "bool", "false");
-	case JSON_NULL: return json_pack("[sss]", name, "null", "null");
-	case JSON_REAL: return json_pack("[sss]", name, "real", "real");
+	case JSON_TRUE: return mem4(name, "bool", "true", NULL);
+	case JSON_FALSE: return mem4(name, "bool", "false", NULL);
+	case JSON_NULL: return mem4(name, "null", "null", NULL);
+	case JSON_REAL: return mem4(name, "real", "real", NULL);
 	case JSON_OBJECT:
 	case JSON_ARRAY:
 		s = json_dumps(v, JSON_COMPACT | JSON_SORT_KEYS | JSON_ENSURE_ASCII);
-		t = json_pack("[sss]", name, json_is_object(v) ? "obj" : "arr", s);
+		t = mem4(name, json_is_object(v) ? "obj" : "arr", s, NULL);
 		free(s);
 		return t;
 	}
-	return json_pack("[sss]", name, "?", "?");
+	return mem4(name, "?", "?", NULL);
+}
+static json_t *marker_list(const char *why)
+{
+	json_t *a = json_array();
+	json_array_append_new(a, mem4(why, "#", "", NULL));
+	return a;
 }
 static int name_ok(const char *n) { return is_plain_ascii(n) && strlen(n) < 100; }
 /* text of a JSON object -> sorted list of members, or the string "#<why>" */
@@ -869,8 +879,8 @@ static json_t *project_objtext(const char *text, size_t len)
 	json_t *o = json_loadb(text, len, JSON_DECODE_ANY | JSON_ALLOW_NUL, &e), *a;
 	const char *k; json_t *v;
 	void *it;
-	if (!o) return json_string("#notjson");
-	if (!json_is_object(o)) { json_decref(o); return json_string("#notobj"); }
+	if (!o) return marker_list("#notjson");
+	if (!json_is_object(o)) { json_decref(o); return marker_list("#notobj"); }
 	a = json_array();
 	/* sorted iteration */
 	{
@@ -881,7 +891,7 @@ static json_t *project_objtext(const char *text, size_t len)
 		for (i = 0; i < n; i++) {
 			k = keys[i]; v = json_object_get(o, k);
 			if (name_ok(k)) json_array_append_new(a, project_member(k, v));
-			else { char *h = hexenc((const unsigned char *)k, strlen(k)); json_t *m = project_member("#hexname", v); json_array_append_new(m, json_string(h)); free(h); json_array_append_new(a, m); }
+			else { char *h = hexenc((const unsigned char *)k, strlen(k)); char *nn = malloc(strlen(h) + 8); sprintf(nn, "#hex:%s", h); json_array_append_new(a, project_member(nn, v)); free(h); free(nn); }
 		}
 		free(keys);
 	}
@@ -968,30 +978,39 @@ static void fill_value(jwt_value_t *jv, json_t *v, struct vstore *vs, int set)
 	} else die("value type %s", t);
 	jv->error = JWT_VALUE_ERR_NONE;
 }
-/* project what a getter returned */
-static json_t *project_got(jwt_value_t *jv, jwt_value_error_t ret)
+/* project what a getter returned: [t, s, w]; a whole-map JSON get also
+ * yields the member list through *mapout */
+static json_t *got3(const char *t, const char *sv, json_t *w)
+{
+	return json_pack("[sso]", t, sv, w ? w : wide(0));
+}
+static json_t *project_got(jwt_value_t *jv, jwt_value_error_t ret, json_t **mapout)
 {
 	json_t *r;
-	if (ret != JWT_VALUE_ERR_NONE) return json_pack("[ss]", "~", "~");
+	*mapout = NULL;
+	if (ret != JWT_VALUE_ERR_NONE) return got3("~", "~", NULL);
 	switch (jv->type) {
-	case JWT_VALUE_INT: return json_pack("[so]", "int", wide(jv->int_val));
+	case JWT_VALUE_INT: return got3("int", "", wide(jv->int_val));
 	case JWT_VALUE_STR:
-		if (!jv->str_val) return json_pack("[ss]", "str", "~NULL");
-		if (is_plain_ascii(jv->str_val) && strlen(jv->str_val) < 200) return json_pack("[ss]", "str", jv->str_val);
-		{ char *h = hexenc((const unsigned char *)jv->str_val, strlen(jv->str_val)); r = json_pack("[ss]", "strx", h); free(h); return r; }
-	case JWT_VALUE_BOOL: return json_pack("[ss]", "bool", jv->bool_val ? "true" : "false");
+		if (!jv->str_val) return got3("str", "~NULL", NULL);
+		if (is_plain_ascii(jv->str_val) && strlen(jv->str_val) < 200) return got3("str", jv->str_val, NULL);
+		{ char *h = hexenc((const unsigned char *)jv->str_val, strlen(jv->str_val)); r = got3("strx", h, NULL); free(h); return r; }
+	case JWT_VALUE_BOOL: return got3("bool", jv->bool_val ? "true" : "false", NULL);
 	case JWT_VALUE_JSON:
-		if (!jv->json_val) return json_pack("[ss]", "json", "~NULL");
+		if (!jv->json_val) return got3("json", "~NULL", NULL);
 		{
 			json_error_t e;
 			json_t *o = json_loads(jv->json_val, JSON_DECODE_ANY, &e);
-			if (!o) r = json_pack("[ss]", "json", "#notjson");
-			else if (json_is_object(o)) r = json_pack("[so]", "objm", project_objtext(jv->json_val, strlen(jv->json_val)));
-			else { char *s = json_dumps(o, JSON_COMPACT | JSON_SORT_KEYS | JSON_ENSURE_ASCII | JSON_ENCODE_ANY); r = json_pack("[ss]", json_is_array(o) ? "arr" : "scalar", s); free(s); }
+			char *s;
+			if (!o) return got3("json", "#notjson", NULL);
+			s = json_dumps(o, JSON_COMPACT | JSON_SORT_KEYS | JSON_ENSURE_ASCII | JSON_ENCODE_ANY);
+			if (json_is_object(o) && (!jv->name || !jv->name[0])) { *mapout = project_objtext(jv->json_val, strlen(jv->json_val)); r = got3("wholemap", "", NULL); }
+			else r = got3(json_is_object(o) ? "obj" : json_is_array(o) ? "arr" : "scalar", s, NULL);
+			free(s);
 			json_decref(o);
 			return r;
 		}
-	default: return json_pack("[ss]", "?", "?");
+	default: return got3("?", "?", NULL);
 	}
 }
 
@@ -1002,7 +1021,7 @@ static json_t *whole_map(void *obj, getter_fn g)
 	jwt_value_t jv;
 	json_t *r;
 	jwt_set_GET_JSON(&jv, NULL);
-	if (g(obj, &jv) != JWT_VALUE_ERR_NONE || !jv.json_val) return json_string("#geterr");
+	if (g(obj, &jv) != JWT_VALUE_ERR_NONE || !jv.json_val) return marker_list("#geterr");
 	r = project_objtext(jv.json_val, strlen(jv.json_val));
 	lib_free(jv.json_val);
 	return r;
@@ -1041,7 +1060,7 @@ static void map_op(json_t *ev, void *obj, int isjwt, const char *k, const char *
 		ret = g(obj, &jv);
 		json_object_set_new(ev, "ret", json_string(verr_name(ret)));
 		json_object_set_new(ev, "verr", json_string(verr_name(jv.error)));
-		json_object_set_new(ev, "got", project_got(&jv, ret));
+		{ json_t *mo = NULL; json_object_set_new(ev, "got", project_got(&jv, ret, &mo)); json_object_set_new(ev, "gotmap", mo ? mo : json_array()); }
 		if (jv.type == JWT_VALUE_JSON && jv.json_val) lib_free(jv.json_val);
 		vstore_free(&vs);
 	} else if (!strcmp(k, "del")) {
@@ -1098,34 +1117,24 @@ static int generic_cb(jwt_t *jwt, jwt_config_t *config)
 }
 
 /* ================================================================= tokens */
-static char *dump_members(json_t *list)
-{
-	/* list of [name, jsonvalue] in the given order (order preserved) */
-	json_t *o = json_object();
-	size_t i; json_t *p; char *s;
-	json_array_foreach(list, i, p)
-		json_object_set(o, json_string_value(json_array_get(p, 0)), json_array_get(p, 1));
-	s = json_dumps(o, JSON_COMPACT | JSON_PRESERVE_ORDER);
-	json_decref(o);
-	return s;
-}
 /* claim descriptor list: [[name, type, val]...] -> json object text */
-static json_t *claim_value(const char *t, json_t *val)
+static json_t *claim_value(const char *t, const char *sv, json_t *w)
 {
-	if (!strcmp(t, "int")) return json_integer(json_is_array(val) ? unwide(val) : json_integer_value(val));
-	if (!strcmp(t, "str")) {
-		const char *s = json_string_value(val);
-		if (!strncmp(s, "#hex:", 5)) { size_t n; unsigned char *b = hexdec(s + 5, &n); json_t *r = json_stringn_nocheck((char *)b, n); free(b); return r; }
-		return json_string(s);
-	}
-	if (!strcmp(t, "bool")) return json_boolean(!strcmp(json_string_value(val), "true"));
+	if (!strcmp(t, "int")) return json_integer(unwide(w));
+	if (!strcmp(t, "str")) return json_string(sv);
+	if (!strcmp(t, "strx")) { size_t n; unsigned char *b = hexdec(sv, &n); json_t *r = json_stringn_nocheck((char *)b, n); free(b); return r; }
+	if (!strcmp(t, "bool")) return json_boolean(!strcmp(sv, "true"));
 	if (!strcmp(t, "null")) return json_null();
 	if (!strcmp(t, "real")) return json_real(1700000000.5);
-	if (!strcmp(t, "obj") || !strcmp(t, "arr")) { json_error_t e; json_t *r = json_loads(json_string_value(val), 0, &e); return r ? r : json_null(); }
-	if (!strcmp(t, "intstr")) { char b[32]; snprintf(b, sizeof b, "%lld", (long long)unwide(val)); return json_string(b); }
-	if (!strcmp(t, "realint")) return json_real((double)unwide(val));
+	if (!strcmp(t, "obj") || !strcmp(t, "arr")) { json_error_t e; json_t *r = json_loads(sv, 0, &e); return r ? r : json_null(); }
+	if (!strcmp(t, "intstr")) { char b[32]; snprintf(b, sizeof b, "%lld", (long long)unwide(w)); return json_string(b); }
+	if (!strcmp(t, "realint")) return json_real((double)unwide(w));
 	die("claim type %s", t);
 	return NULL;
+}
+static json_t *mem_value(json_t *p)
+{
+	return claim_value(json_string_value(json_array_get(p, 1)), json_string_value(json_array_get(p, 2)), json_array_get(p, 3));
 }
 static char *members_text(json_t *lst, int pretty)
 {
@@ -1133,7 +1142,7 @@ static char *members_text(json_t *lst, int pretty)
 	size_t i; json_t *p; char *s;
 	json_array_foreach(lst, i, p) {
 		const char *n = json_string_value(json_array_get(p, 0));
-		json_object_set_new(o, n, claim_value(json_string_value(json_array_get(p, 1)), json_array_get(p, 2)));
+		json_object_set_new(o, n, mem_value(p));
 	}
 	s = json_dumps(o, (pretty ? JSON_INDENT(1) : JSON_COMPACT) | JSON_PRESERVE_ORDER);
 	json_decref(o);
@@ -1157,8 +1166,7 @@ static char *segment_for(const char *cls, json_t *members, const char *algspell,
 			else if (!strcmp(algspell, "#real")) json_object_set_new(o, "alg", json_real(2.5));
 			else json_object_set_new(o, "alg", json_string(algspell));
 			json_array_foreach(lst, i, p)
-				json_object_set_new(o, json_string_value(json_array_get(p, 0)),
-					claim_value(json_string_value(json_array_get(p, 1)), json_array_get(p, 2)));
+				json_object_set_new(o, json_string_value(json_array_get(p, 0)), mem_value(p));
 			js = json_dumps(o, (!strcmp(cls, "objws") ? JSON_INDENT(2) : JSON_COMPACT) | JSON_PRESERVE_ORDER);
 			json_decref(o);
 		} else
@@ -1321,7 +1329,7 @@ static char *forge_token(json_t *td, json_t *info)
 			json_t *d = !strcmp(alter, "pay") ? pd : hd;
 			json_t *m = json_object_get(d, "m") ? json_deep_copy(json_object_get(d, "m")) : json_array();
 			char *ns;
-			json_array_append_new(m, json_pack("[sss]", "zz_altered", "str", "1"));
+			json_array_append_new(m, mem4("zz_altered", "str", "1", NULL));
 			ns = segment_for("obj", m, !strcmp(alter, "hdr") ? jstr(hd, "alg", "~") : NULL, !strcmp(alter, "hdr"));
 			if (!strcmp(alter, "pay")) { free(pseg); pseg = ns; } else { free(hseg); hseg = ns; }
 			json_decref(m);
@@ -1440,17 +1448,6 @@ static jwt_claims_t claim_enum(const char *s)
 	return 0;
 }
 
-static void cb_install(struct cfgobj *o, int isb, json_t *prog, json_t *ev)
-{
-	int ret;
-	if (o->cb) { json_decref(o->cb); o->cb = NULL; }
-	if (prog && json_is_array(prog)) {
-		o->cb = json_incref(prog);
-		ret = isb ? jwt_builder_setcb(o->obj, generic_cb, o) : jwt_checker_setcb(o->obj, generic_cb, o);
-	} else
-		ret = isb ? jwt_builder_setcb(o->obj, NULL, NULL) : jwt_checker_setcb(o->obj, NULL, NULL);
-	if (ev) json_object_set_new(ev, "ret", json_integer(ret));
-}
 /* the callback ctx is the cfgobj; adapt generic_cb's view */
 static int obj_cb(jwt_t *jwt, jwt_config_t *config)
 {
@@ -1560,34 +1557,50 @@ static json_t *generate_res(struct cfgobj *o, char **tokout)
 }
 
 /* ================================================================ codec */
+static json_t *bytes_list(const unsigned char *b, size_t n)
+{
+	json_t *a = json_array();
+	for (size_t i = 0; i < n; i++) json_array_append_new(a, json_integer(b[i]));
+	return a;
+}
+static unsigned char *list_bytes(json_t *a, size_t *n)
+{
+	size_t l = json_array_size(a);
+	unsigned char *b = malloc(l + 1);
+	for (size_t i = 0; i < l; i++) b[i] = (unsigned char)json_integer_value(json_array_get(a, i));
+	b[l] = 0; *n = l;
+	return b;
+}
+/* {"op":"Codec","dir":"enc","bytes":[...]} / {"dir":"dec","chars":[...]} (no NUL in chars) */
 static void op_codec(json_t *op, json_t *ev)
 {
 	const char *dir = jstr(op, "dir", "enc");
-	size_t n; unsigned char *in = hexdec(jstr(op, "hex", ""), &n);
+	size_t n;
 	if (!strcmp(dir, "enc")) {
-		char *out = NULL;
-		int r = jwt_base64uri_encode(&out, (const char *)in, (int)n);
+		unsigned char *in = list_bytes(json_object_get(op, "bytes"), &n);
+		/* exact-size heap copy so that ASan sees any over-read */
+		char *exact = malloc(n ? n : 1), *out = NULL;
+		int r;
+		memcpy(exact, in, n);
+		r = jwt_base64uri_encode(&out, exact, (int)n);
 		json_object_set_new(ev, "ret", json_integer(r));
-		if (r >= 0 && out) {
-			json_object_set_new(ev, "out", json_string(is_plain_ascii(out) ? out : "#nonascii"));
-			json_object_set_new(ev, "outlen", json_integer((json_int_t)strlen(out)));
-			lib_free(out);
-		} else json_object_set_new(ev, "out", json_string("~"));
+		json_object_set_new(ev, "isnull", json_integer(out ? 0 : 1));
+		json_object_set_new(ev, "chars", out ? bytes_list((unsigned char *)out, strlen(out)) : json_array());
+		if (out) lib_free(out);
+		free(exact); free(in);
 	} else {
+		unsigned char *in = list_bytes(json_object_get(op, "chars"), &n);
+		char *exact = malloc(n + 1);
 		int len = -7;
-		unsigned char *out = jwt_base64uri_decode((const char *)in, &len);
-		if (out) {
-			char *h = hexenc(out, len > 0 ? (size_t)len : 0);
-			json_object_set_new(ev, "out", json_string(h));
-			json_object_set_new(ev, "ret", json_integer(len));
-			free(h);
-			lib_free(out);
-		} else {
-			json_object_set_new(ev, "out", json_string("~"));
-			json_object_set_new(ev, "ret", json_integer(len));
-		}
+		unsigned char *out;
+		memcpy(exact, in, n); exact[n] = 0;
+		out = jwt_base64uri_decode(exact, &len);
+		json_object_set_new(ev, "ret", json_integer(len));
+		json_object_set_new(ev, "isnull", json_integer(out ? 0 : 1));
+		json_object_set_new(ev, "bytes", out && len > 0 ? bytes_list(out, (size_t)len) : json_array());
+		if (out) lib_free(out);
+		free(exact); free(in);
 	}
-	free(in);
 }
 
 /* ================================================================ ops */
@@ -1624,8 +1637,9 @@ static char *build_doc(json_t *op, size_t *len)
 	const char *doc = jstr(op, "doc", "keys");
 	json_t *keys = json_object_get(op, "keys");
 	char *s;
-	if (!strcmp(doc, "raw")) { s = (char *)hexdec(jstr(op, "hex", ""), len); return s; }
-	if (!strcmp(doc, "text")) { s = strdup(jstr(op, "text", "")); *len = strlen(s); return s; }
+	/* literal documents: the class named in "doc" is what the script says the text is */
+	if (json_object_get(op, "hex")) { s = (char *)hexdec(jstr(op, "hex", ""), len); return s; }
+	if (json_object_get(op, "text")) { s = strdup(jstr(op, "text", "")); *len = strlen(s); return s; }
 	if (!strcmp(doc, "single")) {
 		json_t *j = export_jwk(json_array_get(keys, 0));
 		s = json_dumps(j, JSON_COMPACT | JSON_ENCODE_ANY); json_decref(j);
@@ -1685,7 +1699,7 @@ static void op_load(json_t *op, json_t *ev)
 		json_object_set_new(ev, "errany", json_integer(jwks_error_any(r->set)));
 		json_object_set_new(ev, "count", json_integer((json_int_t)jwks_item_count(r->set)));
 	}
-	ids = ring_sync(r, json_object_get(op, "keys"), newitems, (int)jint(op, "mat", 0));
+	ids = ring_sync(r, json_object_get(op, "keys"), newitems, 1);
 	json_object_set_new(ev, "ids", ids);
 	json_object_set_new(ev, "new", newitems);
 	if (jint(op, "logdoc", 0) && len < 2000 && is_plain_ascii(doc)) json_object_set_new(ev, "doctext", json_string(doc));
@@ -1803,7 +1817,7 @@ static void run_op(json_t *op)
 		add_errmsg(ev, cobj(op, name[0] == 'B'), name[0] == 'B');
 	} else if (!strcmp(name, "Verify")) {
 		struct cfgobj *o = cobj(op, 0);
-		json_t *info = json_object();
+		json_t *info = json_pack("{s:i}", "v", 1);
 		char *tok = forge_token(json_object_get(op, "tok"), info);
 		json_t *res;
 		size_t i; const char *k; json_t *v;
